@@ -709,6 +709,15 @@ func payloadBounded(val ssa.Value, at ssa.Instruction, isMax func(ssa.Value) boo
 			}
 		}
 	}
+	// w[:n] with n the count of a read into w itself: at most len(w) (io.Reader contract) — bounded if w is
+	if sl.Low == nil && sl.High != nil {
+		if ex, isEx := stripConv(sl.High).(*ssa.Extract); isEx && ex.Index == 0 {
+			if call, isC := ex.Tuple.(*ssa.Call); isC && strings.HasSuffix(calleeName(&call.Call), ").Read") && len(call.Call.Args) > 0 && call.Call.Args[len(call.Call.Args)-1] == sl.X {
+				ok2, w := payloadBounded(sl.X, call, isMax)
+				return ok2, "length = count of a read into this very window, whose " + w
+			}
+		}
+	}
 	// in[n:] under guard len(in)-n <= max
 	if sl.High == nil {
 		for _, a := range AtomsAt(at) {
@@ -861,6 +870,10 @@ func c04R5(c *Ctx, rule string) {
 								inPlace = true
 							}
 						}
+						// the same through a named window: w := buf[14:…]; payload = w[:n]
+						if off, okO := offsetInBuf(st.Val, buf); okO && off == 14 {
+							inPlace = true
+						}
 					}
 				}
 			})
@@ -887,6 +900,29 @@ func c04R5(c *Ctx, rule string) {
 }
 
 func isK(v ssa.Value, k int64) bool { x, ok := intConst(v); return ok && x == k }
+
+// offsetInBuf: v is buf[k1:…][k2:…]… (constant lower bounds, any nesting): the offset of v[0] in buf.
+func offsetInBuf(v, buf ssa.Value) (int64, bool) {
+	off := int64(0)
+	for d := 0; d < 6; d++ {
+		sl, ok := v.(*ssa.Slice)
+		if !ok {
+			return 0, false
+		}
+		if sl.Low != nil {
+			k, isK := intConst(sl.Low)
+			if !isK {
+				return 0, false
+			}
+			off += k
+		}
+		if sameBuf(sl.X, buf) {
+			return off, true
+		}
+		v = sl.X
+	}
+	return 0, false
+}
 
 // sameBuf: two expressions denote the same byte buffer (same value, or loads through the same pointer)
 func sameBuf(a, b ssa.Value) bool {
